@@ -208,7 +208,7 @@ func textAttacks(orig []byte, rng *rand.Rand, lv textLevel, exp string, emit fun
 	// deep nests
 	for _, pat := range []string{"thresh(1,[", "thresh(255,[", "(", "[", "uc(0,[", "\"", "{", "[{\"a\":"} {
 		ds := lv.nests
-		if pat == "thresh(1,[" && !lv.light && !lv.embedded && slices.Max(ds) < 1000000 {
+		if pat == "thresh(1,[" && !lv.light && !lv.embedded && len(ds) > 0 && slices.Max(ds) < 1000000 {
 			// deep enough to exhaust a goroutine stack if the policy parser recursed without a bound
 			ds = append(append([]int(nil), ds...), 1000000)
 		}
